@@ -61,7 +61,7 @@ import nfc.clf.rcs380
 
 from vlib import ref_crc, simchip
 from vlib import ref_pn53x as ref
-from vlib.engine import HarnessError, Leg, Violation, twin_O, unexpected
+from vlib.engine import HarnessError, Leg, Violation, twin_O, unexpected, twin_env
 
 PROPERTY = "C14"
 LEVEL = "exploration"
@@ -1880,3 +1880,10 @@ LEGS += [
     twin_O(_by["tt2-path"], quick=1200, thorough=12000, shards_quick=4),
     twin_O(_by["crc-random"], quick=800, thorough=8000, shards_quick=2),
 ]
+
+# the same searches with every nfc logger enabled down to the lowest level
+# (code that only runs, or only evaluates its arguments, when logging is on)
+_byl = dict((lg.name, lg) for lg in LEGS)
+LEGS += [twin_env(_byl[n], "log", {"VERIF_LOG": "debug"}, quick=q, thorough=t,
+                  shards_quick=2)
+         for n, q, t in [('rsp-subst', 1000, 10000)] if n in _byl]
